@@ -155,6 +155,10 @@ std::shared_ptr<IFeature> BaseTagHDF5::getFeature(const std::string &name_or_id)
 
 std::shared_ptr<IFeature>  BaseTagHDF5::getFeature(ndsize_t index) const {
     boost::optional<H5Group> g = feature_group(false);
+    if (!g || index >= g->objectCount()) {
+        // no feature group yet (no feature was ever created) or index past the end
+        throw OutOfBounds("No feature at given index", static_cast<size_t>(index));
+    }
     std::string id = g->objectName(index);
     return getFeature(id);
 }
